@@ -146,6 +146,13 @@ func (w *W) Exec(op string) error {
 		return w.opMeltQuote(op, a, -1, true)
 	case "meltqpi": // MPP partial (1 sat) melt quote on the invoice of own mint quote qi
 		return w.opMeltQuote(op, 1, ints(arg(1))[0], true)
+	case "meltqm": // external invoice whose amount is not a whole number of sats (msat)
+		msat, _ := strconv.ParseUint(arg(1), 10, 64)
+		return w.opMeltQuoteRaw(op, w.LN.NewExternalInvoiceMsat(msat).Request, "", -1)
+	case "meltqh": // an invoice forged by a third party: payment hash of own mint quote qi, another amount (sat)
+		qi := ints(arg(1))[0]
+		a, _ := strconv.ParseUint(arg(2), 10, 64)
+		return w.opMeltQuoteRaw(op, w.LN.ForgeInvoice(w.Quotes[qi].Q.PaymentHash, a*1000), w.Quotes[qi].Q.PaymentHash, qi)
 	case "melt":
 		return w.opMelt(op, ints(arg(1))[0], arg(2), arg(3), arg(4))
 	case "pollm":
@@ -591,6 +598,25 @@ func (w *W) opMeltQuote(op string, amount uint64, qi int, partial bool) error {
 		}
 	}
 	w.Melts = append(w.Melts, &TMelt{Q: mq, Hash: hash, Internal: qi, Partial: partial})
+	return nil
+}
+
+// opMeltQuoteRaw requests a melt quote for an arbitrary BOLT11 string (no accept / reject demand: the statement's
+// conservation inequality judges what happens afterwards).
+func (w *W) opMeltQuoteRaw(op, request, hash string, internal int) error {
+	mq, err := w.M.M.RequestMeltQuote(nut05.PostMeltQuoteBolt11Request{Request: request, Unit: "sat"})
+	w.note(op, err)
+	if err != nil {
+		return nil
+	}
+	if hash == "" {
+		for h, inv := range w.LN.Invoices {
+			if inv.Request == request {
+				hash = h
+			}
+		}
+	}
+	w.Melts = append(w.Melts, &TMelt{Q: mq, Hash: hash, Internal: internal})
 	return nil
 }
 
